@@ -547,7 +547,152 @@ def execute(case: dict) -> dict:
     return out
 
 
+# ---------------------------------------------------------------------------------------
+# `async with BlockingPortal()` used directly (not through start_blocking_portal)
+# ---------------------------------------------------------------------------------------
+def direct_cases():  # noqa: ANN201
+    for cfg in ("asyncio", "uvloop"):
+        for leave in ("normal", "cancel-as-last-statement", "cancel-one-step-before",
+                      "body-raises"):  # fmt: skip
+            for tasks in (0, 1, 2):
+                yield {"t": "direct", "cfg": cfg, "leave": leave, "tasks": tasks, "exit": leave,
+                       "threads": []}  # fmt: skip
+
+
+def execute_direct(case: dict) -> dict:
+    import anyio
+    from anyio import CancelScope
+    from anyio.from_thread import BlockingPortal
+
+    viol: list = []
+    out: dict = {"viol": viol, "windows": {"direct_portal:" + case["leave"]: 1}, "nontrivial": True,
+                 "inconclusive": None, "inject": {}}  # fmt: skip
+    mon = Mon()
+    state: dict = {}
+    ready, go = threading.Event(), threading.Event()
+    gates = [threading.Event() for _ in range(case["tasks"])]
+
+    async def gated(i: int) -> str:
+        mon.ev("exec_start", i)
+        try:
+            while not gates[i].is_set():
+                await anyio.sleep(0.0005)
+
+            mon.ev("exec_end", i, "returned")
+            return "done"
+        except anyio.get_cancelled_exc_class():
+            mon.ev("exec_end", i, "cancelled")
+            raise
+
+    async def main() -> None:
+        with CancelScope() as sc:
+            async with BlockingPortal() as portal:
+                state["portal"] = portal
+                ready.set()
+                while not go.is_set():
+                    await anyio.sleep(0.0005)
+
+                if case["leave"] == "cancel-one-step-before":
+                    sc.cancel()
+                    mon.ev("exit_begin")
+                    await anyio.sleep(0)  # delivered here: the block is left by the exception
+                elif case["leave"] == "cancel-as-last-statement":
+                    mon.ev("exit_begin")
+                    sc.cancel()  # pending, not yet delivered, when __aexit__ starts
+                elif case["leave"] == "body-raises":
+                    mon.ev("exit_begin")
+                    raise Leave
+                else:
+                    mon.ev("exit_begin")
+
+        mon.ev("block_left")
+
+    def loop_thread() -> None:
+        try:
+            opts = {"use_uvloop": True} if case["cfg"] == "uvloop" else {}
+            anyio.run(main, backend_options=opts)
+        except Leave:
+            pass
+        except BaseExceptionGroup as e:
+            # (the portal's task group wraps what the body raised)
+            if not (case["leave"] == "body-raises" and len(e.exceptions) == 1
+                    and isinstance(e.exceptions[0], Leave)):  # fmt: skip
+                state["run_exc"] = repr(e)
+        except BaseException as e:  # noqa: BLE001
+            state["run_exc"] = repr(e)
+
+        mon.ev("exit_end")
+
+    t = threading.Thread(target=loop_thread, daemon=True)
+    t.start()
+    if not ready.wait(10):
+        out["inconclusive"] = "portal never came up"
+        return _finish_direct(case, out, mon)
+
+    portal = state["portal"]
+    futures = [portal.start_task_soon(gated, i) for i in range(case["tasks"])]
+    t0 = time.monotonic()
+    while mon.count.get(("exec_start", None), 0) < 0 or any(
+        ("exec_start", i) not in mon.first for i in range(case["tasks"])
+    ):
+        if time.monotonic() - t0 > 5:
+            break
+
+        time.sleep(0.0005)
+
+    go.set()
+    if case["leave"] == "normal":
+        time.sleep(0.003)
+        for g in gates:
+            g.set()  # a normal exit waits for the tasks
+
+    t.join(8)
+    if t.is_alive():
+        # a cancelled / failing exit must not need the gates
+        for g in gates:
+            g.set()
+
+        t.join(5)
+        viol.append(("portal-exit-hangs", {"leave": case["leave"]}))
+
+    for g in gates:
+        g.set()
+
+    exit_end = mon.first.get(("exit_end", None))
+    if state.get("run_exc"):
+        viol.append(("exception-escaped-portal-context", {"exc": state["run_exc"]}))
+
+    for i in range(case["tasks"]):
+        s_ = mon.first.get(("exec_start", i))
+        e_ = mon.first.get(("exec_end", i))
+        if s_ is not None and exit_end is not None and (e_ is None or e_ > exit_end):
+            viol.append(("portal-exit-returned-before-task-ended", {"cid": i, "kind": "gated"}))
+
+        f = futures[i]
+        if not f.done():
+            viol.append(("future-unresolved-after-portal-exit", {"cid": i, "kind": "gated"}))
+
+    # after the context has been left every new call is refused
+    try:
+        portal.call(gated, 0) if case["tasks"] else portal.call(anyio.sleep, 0)
+        viol.append(("call-accepted-after-stop", {"cid": "late", "kind": "call"}))
+    except RuntimeError:
+        pass
+    except BaseException as e:  # noqa: BLE001
+        viol.append(("caller-got-unexpected-exception", {"cid": "late", "exc": repr(e)}))
+
+    return _finish_direct(case, out, mon)
+
+
+def _finish_direct(case: dict, out: dict, mon) -> dict:  # noqa: ANN001
+    out["sig"] = sig_of(["direct", case["cfg"], case["leave"], case["tasks"],
+                         [(e[1], e[2]) for e in mon.log]])  # fmt: skip
+    out["log_tail"] = [list(map(str, e)) for e in mon.log[-50:]]
+    return out
+
+
 def all_cases(tier: str, seed: int):  # noqa: ANN201
+    yield from direct_cases()
     rng = random.Random(seed * 4253 + 15)
     for _ in range(2500 if tier == "thorough" else 160):
         for cfg in ("asyncio", "uvloop"):
@@ -555,7 +700,7 @@ def all_cases(tier: str, seed: int):  # noqa: ANN201
 
 
 def judge(case: dict, col) -> None:  # noqa: ANN001
-    res = execute(case)
+    res = execute_direct(case) if case.get("t") == "direct" else execute(case)
     col.case(res["sig"], res["nontrivial"], sample={"case": case, "events": res["log_tail"][:25]})
     for k, v in res["windows"].items():
         col.count("window:" + k, v)
